@@ -119,6 +119,12 @@ def make_file(rnd, ver, force_ghost=False):
     stream = gen.interleave(rnd, progs)[:rnd.choice([3, 8, 14])]
     # a record about a thread, later completed by a record OF that thread (reports must not be patched afterwards)
     stream += [w.term(1, 4), w.sys('BSC_getpid', 1, 2), w.tpid(4, 55), w.sys('BSC_getpid', 2, 2)]
+    # USE BEFORE DEFINITION of the process column: a thread works before another thread's records declare its process, then works
+    # again.  The first line is printed when its process is not known yet - in the complete dump as in the dump cut right after it.
+    # (Own world / random stream: the files of a seed stay the files they were; threads 7 and 8 occur nowhere else.)
+    import random as _random
+    w2 = World(_random.Random(4242 + len(stream)), big_tids=False, allow_zero_tid=False)
+    stream += [w2.sys('BSC_getpid', 0, 7), w2.ntd(8, 7, 77), w2.nts(8, 'late'), w2.sys('BSC_getpid', 0, 7)]
     recs = []
     for k, a in enumerate(stream, 1):
         data = a.data if a.data is not None else struct.pack('<QQQQ', *[x & ((1 << 64) - 1) for x in a.words])
